@@ -19,14 +19,19 @@
 EXTENDS Integers, Sequences
 
 CONSTANTS MaxN,      \* table sizes 0..MaxN
+          Extra,     \* aircraft tracked but not displayed: m - n ranges over Extra (m = 0 with ZeroTracked)
+          ZeroTracked, \* TRUE: also explore m = 0 (a structure no table refresh produces; update() must be total)
           MaxQ,      \* search queries up to MaxQ characters are explored
           W0,        \* terminal width at start-up
           TickW,     \* set of widths announced by Tick events
           Guarded    \* TRUE: the design; FALSE: spec mutant with the raw n-1 arithmetic
 
 (* ------------------------------ alphabet -------------------------------- *)
-(* "x" stands for any character without a function of its own.             *)
-CharKeys    == {"j", "k", "g", "q", "a", "c", "v", ".", "f", "l", "-", "/", "x"}
+(* "x" stands for any ASCII character without a function of its own;        *)
+(* "U+00E9" and "U+65E5" for characters whose UTF-8 form has 2 and 3 bytes  *)
+(* (the names are translated to the characters when talking to the driver). *)
+CharKeys    == {"j", "k", "g", "q", "a", "c", "v", ".", "f", "l", "-", "/", "x", "U+00E9", "U+65E5"}
+Utf8Len(k)  == CASE k = "U+00E9" -> 2 [] k = "U+65E5" -> 3 [] OTHER -> 1
 SpecialKeys == {"Esc", "Enter", "Backspace", "Up", "Down", "Home", "PageUp"}
 Keys        == CharKeys \cup SpecialKeys \cup {"Tick"}
 
@@ -40,8 +45,13 @@ OrderKey   == "-"
 SortNames  == {"CALLSIGN", "ALTITUDE", "VRATE", "COUNT", "FIRST", "LAST"}
 
 (* ------------------------------- states --------------------------------- *)
-InitState(n) == [n |-> n, sel |-> 0, quit |-> FALSE, search |-> FALSE, qlen |-> 0,
-                 sortKey |-> "COUNT", sortAsc |-> FALSE, width |-> W0]
+(* n rows are displayed, m aircraft are tracked (the table hides aircraft    *)
+(* heard once or not recently, so m differs from n in production); C17 is   *)
+(* about the displayed rows, no rule below depends on m.  q is the search   *)
+(* query, abstracted to the UTF-8 length of each of its characters.         *)
+InitState(n, m) == [n |-> n, m |-> m, sel |-> 0, quit |-> FALSE, search |-> FALSE, q |-> <<>>,
+                    sortKey |-> "COUNT", sortAsc |-> FALSE, width |-> W0]
+TrackedFor(n) == {n + e : e \in Extra} \cup (IF ZeroTracked THEN {0} ELSE {})
 
 (* --------------------------- property level ----------------------------- *)
 InRange(t) == IF t.n = 0 THEN t.sel = 0 ELSE t.sel >= 0 /\ t.sel < t.n
@@ -71,10 +81,10 @@ Up1(n, sel)   == IF Guarded /\ n = 0 THEN 0 ELSE IF sel = 0 THEN n - 1 ELSE sel 
 EditKeys == CharKeys \cup {"Backspace", "Enter", "Esc"}
 
 EditStep(s, k) ==
-  CASE k \in CharKeys  -> [s EXCEPT !.qlen = @ + 1]
-    [] k = "Backspace" -> [s EXCEPT !.qlen = IF @ = 0 THEN 0 ELSE @ - 1]
+  CASE k \in CharKeys  -> [s EXCEPT !.q = Append(@, Utf8Len(k))]
+    [] k = "Backspace" -> [s EXCEPT !.q = IF @ = <<>> THEN <<>> ELSE SubSeq(@, 1, Len(@) - 1)]
     [] k = "Enter"     -> [s EXCEPT !.search = FALSE]
-    [] k = "Esc"       -> [s EXCEPT !.search = FALSE, !.qlen = 0]
+    [] k = "Esc"       -> [s EXCEPT !.search = FALSE, !.q = <<>>]
 
 TableStep(s, k) ==
   CASE k \in {"j", "Down"}           -> [s EXCEPT !.sel = Down1(s.n, s.sel)]
@@ -96,10 +106,11 @@ VARIABLES st,     \* the interface state
           hist    \* the events <<key, width>> handled since start-up (hidden by a VIEW)
 vars == <<st, key, hist>>
 
-Init == /\ st \in {InitState(n) : n \in 0..MaxN}
+Init == /\ st \in {InitState(n, m) : n \in 0..MaxN, m \in UNION {TrackedFor(k) : k \in 0..MaxN}}
+        /\ st.m \in TrackedFor(st.n)
         /\ key = "none" /\ hist = <<>>
 
-Press(k, w) == /\ Step(st, k, w).qlen <= MaxQ
+Press(k, w) == /\ Len(Step(st, k, w).q) <= MaxQ
                /\ st' = Step(st, k, w)
                /\ key' = k
                /\ hist' = Append(hist, <<k, w>>)
@@ -109,8 +120,9 @@ Next == \E k \in Keys : \E w \in (IF k = "Tick" THEN TickW ELSE {0}) : Press(k, 
 Spec == Init /\ [][Next]_vars
 
 (* ------------------------------ properties ------------------------------ *)
-TypeOK == /\ st.n \in 0..MaxN /\ st.sel \in Int /\ st.quit \in BOOLEAN /\ st.search \in BOOLEAN
-          /\ st.qlen \in 0..MaxQ /\ st.sortKey \in SortNames /\ st.sortAsc \in BOOLEAN
+TypeOK == /\ st.n \in 0..MaxN /\ st.m \in TrackedFor(st.n) /\ st.sel \in Int
+          /\ st.quit \in BOOLEAN /\ st.search \in BOOLEAN
+          /\ Len(st.q) \in 0..MaxQ /\ (\A i \in 1..Len(st.q) : st.q[i] \in 1..3) /\ st.sortKey \in SortNames /\ st.sortAsc \in BOOLEAN
           /\ st.width \in {W0} \cup TickW
 SelInRange == InRange(st)
 QuitOnly   == [][QuitRule(st, key', st')]_vars
